@@ -356,16 +356,21 @@ Proof.
   intros s nlen addr olen opts ovr. unfold reallocate.
   destruct (negb (Z.land addr (blkmask s) =? 0) || negb (Z.land olen (blkmask s) =? 0)); [apply hk_refl|].
   set (nb := shr (IW_ROUNDUP nlen (pow2 (bpow s))) (bpow s)). set (ob := blk_of s olen). set (ab := blk_of s addr).
+  destruct (fx_recheck (vr s) && (nlen <? 0)); [apply hk_refl|].
   destruct (nb =? ob); [apply hk_refl|].
   destruct (fx_realloc (vr s) && (ob <? 1)); [apply hk_refl|].
   destruct (fx_realloc (vr s) && touches_meta s ab ob); [apply hk_refl|].
   destruct (nb <? ob).
   - pose proof (loc_blk_deallocate s (ab + nb) (ob - nb)) as H.
     destruct (blk_deallocate s (ab + nb) (ob - nb)) as [rc s1]. simpl in H. destruct (rc =? 0); left; exact H.
-  - pose proof (hk_blk_allocate s nb ab opts ovr) as H.
+  - destruct (negb ((if fx_recheck (vr s) then fst (set_bit_status s ab ob false true (strict s)) else 0) =? 0)); [apply hk_refl|].
+    pose proof (hk_blk_allocate s nb ab opts ovr) as H.
     destruct (blk_allocate s nb ab opts ovr) as [[[rc s1] naddr] sp]. simpl in H.
     destruct (negb (rc =? 0)); [exact H|].
-    destruct (negb (naddr =? ab) && negb (ensure_ok s1 (shl naddr (bpow s) + uw 64 olen))); [exact H|].
+    assert (Hrel : hk s (snd (blk_deallocate s1 naddr sp))) by (eapply hk_trans; [exact H|left; apply loc_blk_deallocate]).
+    destruct (fx_recheck (vr s) && negb (IW_RANGES_OVERLAP ab (ab + ob) (shr (bmoff s1) (bpow s)) (shr (bmoff s1) (bpow s) + shr (bmlen s1) (bpow s)) =? 0)); [exact Hrel|].
+    destruct (negb (naddr =? ab) && negb (ensure_ok s1 (shl naddr (bpow s) + uw 64 olen)));
+      [destruct (fx_recheck (vr s)); [exact Hrel|exact H]|].
     set (s1' := if negb (naddr =? ab) then ensure_size s1 (shl naddr (bpow s) + uw 64 olen) else s1).
     assert (H1 : hk s s1').
     { eapply hk_trans; [exact H|]. left. unfold s1'. destruct (negb (naddr =? ab)); [apply loc_ensure_size|apply loc_refl]. }
@@ -547,6 +552,7 @@ Proof.
   intros s nlen addr olen opts ovr Ha Ho Hlt H. unfold reallocate. rewrite Ha, Ho. simpl negb. simpl orb. cbv iota.
   set (nb := shr (IW_ROUNDUP nlen (pow2 (bpow s))) (bpow s)) in *. set (ob := blk_of s olen) in *.
   set (ab := blk_of s addr) in *.
+  destruct (fx_recheck (vr s) && (nlen <? 0)); [split; [vm_compute; discriminate|repeat split]|].
   replace (nb =? ob) with false by (symmetry; apply Z.eqb_neq; lia).
   destruct (fx_realloc (vr s) && (ob <? 1)); [split; [vm_compute; discriminate|repeat split]|].
   destruct (fx_realloc (vr s) && touches_meta s ab ob); [split; [vm_compute; discriminate|repeat split]|].
